@@ -1,6 +1,7 @@
 import RustCcModel.Proofs.CtlSimp
 import RustCcModel.Proofs.LifeHist
 import RustCcModel.Proofs.FinOnce
+import RustCcModel.Proofs.FinBeforeDrop
 /-! # C05 — finalizers run only on garbage, once, and before any drop of the same set
 
 Step-level facts: the finalized flag is set *before* the finalizer is called (so it is never called
@@ -100,5 +101,17 @@ theorem only_finalize_again_rearms (c : Cfg) (w : World) (hm : w.mode = .running
     (hr : rearmed w (step c w) x = 1) :
     ∃ k ops self wc top rest, w.stack = .script (.finAgain k :: ops) self wc top :: rest ∧ w.getH k = some x :=
   rearm_only_by_finalize_again c w hm x hlt hr
+
+/-- **All finalizers of a garbage set run before any of its destructors** (every reachable world, caught panics included;
+`finalization` on): while
+`deallocate_list` is destroying a list — from before its first destructor to the release of its boxes — every member of the
+list carries the finalized flag, i.e. its finalizer has run (or it was created inside a finalizer); and during the
+finalization pass every member already visited is flagged. The flag cannot be cleared in between: `finalize_again` panics
+from every callback of a collection (`Proofs/FinBeforeDrop.lean`). -/
+theorem finalizers_before_destructors (c : Cfg) (nH nW nK : Nat) (w : World) (hc : c.fin = true) (h : Reachable c nH nW nK w) :
+    (∀ N r d, Frame.deallocDrop N r d ∈ w.stack → ∀ x ∈ N, (w.heap x).finalized = true) ∧
+    (∀ N r hf o, Frame.finalizePass N r hf o ∈ w.stack → ∀ x ∈ N, x ∉ r → (w.heap x).finalized = true) := by
+  have hfd := reachable_fd hc h
+  exact ⟨fun N r d hm x hx => hfd _ hm x hx, fun N r hf o hm x hx hr => hfd _ hm x hx hr⟩
 
 end RustCc.C05
